@@ -9,6 +9,7 @@ clock).  A history is a sequence over (i = holder 0/1; second holder only for Qu
 
     co_i (checkout)       co_i with the checkout listener raising DisconnectionError /
                           InvalidatePoolError on its first call
+    iso_i (register the isolation-level reset callback that Connection.execution_options(isolation_level=...) registers)
     ci_i (fairy.close())  inv_i hard / soft      detach_i      drop_i (del fairy: refcount-zero weakref callback)
     dispose               recreate (dispose + use pool.recreate(), as Engine.dispose does)
     tick (clock += recycle + 10)                 restart (every open DBAPI connection dies)
@@ -52,7 +53,12 @@ test/engine/test_pool.py passes):
    checkedout()/overflow() are negative (and the pool would then exceed pool_size + max_overflow);
  * ``_finalize_fairy``: a detached connection whose rollback-on-return raises is never closed;
  * ``_finalize_fairy``: a BaseException out of rollback-on-return is re-raised before ``connection_record.checkin()``:
-   the QueuePool slot is lost for good / SingletonThreadPool keeps handing out the dead fairy (thorough tier).
+   the QueuePool slot is lost for good / SingletonThreadPool keeps handing out the dead fairy (thorough tier; fixed in
+   /repo by 053d3d7);
+ * SIG_CHAR (open, listed in known_findings.json): ``_ConnectionRecord.checkin`` runs the ``finalize_callback`` entries
+   (isolation-level reset) unprotected; a driver error in one escapes ``close()`` / the GC callback before
+   ``pool._return_conn``: slot lost (QueuePool), connection leaked (NullPool), or handed out again with the foreign
+   isolation level / dead (StaticPool, SingletonThreadPool).  Every symptom of this root cause maps to SIG_CHAR.
 
 Mutations caught (private copy, README rule 6; each produced new VIOLATION signatures):
  M1 pool/impl.py QueuePool._do_get: `_dec_overflow()` skipped when the creator fails     -> Q1-checkedout (=1 after release)
@@ -93,7 +99,7 @@ META = dict(
     "(BFS over histories with canonical-state dedupe, pure fake DBAPI with open/closed ledger, virtual clock)",
     design_ref="DESIGN.md §5 C26",
     level_text="All single-threaded histories of <=4 pool operations (checkout, checkout with a "
-    "DisconnectionError / InvalidatePoolError raised by a checkout listener, close, hard / soft invalidate, detach, "
+    "DisconnectionError / InvalidatePoolError raised by a checkout listener, isolation-level reset callback, close, hard / soft invalidate, detach, "
     "garbage-collected fairy, dispose, recreate, clock tick beyond recycle, database restart) for <=2 holders on "
     "QueuePool(1,1), QueuePool(2,0,LIFO), NullPool, StaticPool, SingletonThreadPool x pre_ping on/off x recycle "
     "off/on, with <=1 (quick) / <=2 (thorough) injected driver errors (disconnect-class, plain; thorough also KeyboardInterrupt) at "
